@@ -1,7 +1,8 @@
 """C13 - literals reach the program byte-for-byte.
 
 Proof level: lean/PyTealV/Proofs/C13.lean (escape_roundtrip, escape_single_token, hex_roundtrip,
-base16/32/64_valid_decodes, bytes_faithful, int_roundtrip, addr/methodsig partials+counterexamples)
+base16/32/64_valid_decodes, bytes_faithful, int_roundtrip, addr partial+counterexample, methodsig_correct /
+methodsig_rejects + regression examples)
 about the model lean/PyTealV/Models/Literals.lean, stated against the independent TEAL grammar
 lean/PyTealV/Avm/Syntax.lean.
 
@@ -89,6 +90,33 @@ class Real:
         text = pt.compileTeal(pt.Seq(pt.Pop(e), pt.Int(1)), pt.Mode.Application, version=6)
         ls = text.split("\n")
         return ("ok", ls[1] if len(ls) > 1 else "", text)
+
+    def assembled(self, mk):
+        """the same literal compiled with assembleConstants=True: used once (pushint / pushbytes) and used twice (constant
+        block).  Returns [(form, line to decode as a push)]"""
+        pt = self.pt
+        out = []
+
+        def site(text):
+            """the line to decode for the first constant load of `text` (block references resolved through the block)"""
+            ls = text.split("\n")[1:]
+            first = [x for x in ls if not x.startswith(("intcblock", "bytecblock"))][0]
+            op = first.split(" ")[0]
+            if op.startswith(("intc", "bytec")):
+                is_int = op.startswith("intc")
+                blk = [x for x in ls if x.startswith("intcblock " if is_int else "bytecblock ")][0].split(" ")
+                idx = int(first.split(" ")[1]) if op in ("intc", "bytec") else int(op[-1])
+                return "block", ("int " if is_int else "byte ") + blk[1 + idx]
+            return "push", first
+
+        try:
+            t1 = pt.compileTeal(pt.Seq(pt.Pop(mk()), pt.Int(1)), pt.Mode.Application, version=6, assembleConstants=True)
+            out.append(("once:%s" % site(t1)[0], site(t1)[1]))
+            t2 = pt.compileTeal(pt.Seq(pt.Pop(mk()), pt.Pop(mk()), pt.Int(1)), pt.Mode.Application, version=6, assembleConstants=True)
+            out.append(("twice:%s" % site(t2)[0], site(t2)[1]))
+        except Exception as ex:  # noqa: BLE001
+            out.append(("error", type(ex).__name__ + ": " + str(ex)[:120]))
+        return out
 
     def valid(self, kind, s):
         f = {"16": self.T.valid_base16, "32": self.T.valid_base32, "64": self.T.valid_base64,
@@ -282,6 +310,7 @@ def gen_method(r):
         return sig, True
     weird = r.choice([
         'a"b()void', "a\\x41()void", "a\\nb()void", "a()void\nint 0", 'a()void" // x', "a b()void", "a//b()void",
+        "a\rb()void", "a()void\r\nint 0", "\n", "\r", "a()void\r",
         "a;b()void", "été()void", "\U0001f600()void", "a\tb()void", "x" + sig + '"', "\\", '"', " ", "a\\",
         "a\\\\b()void", "a()void;int 1", sig + " ", "a'b()void",
     ])
@@ -302,6 +331,8 @@ class Ctx:
         self.samples: list = []
         self.mismatch: list = []     # model != real (no oracle failure)
         self.nrec: dict = {}
+        self.stats: dict = {}
+        self.assembled_budget = 10 ** 9
 
     def count(self, cls: str, key):
         self.n += 1
@@ -369,6 +400,19 @@ def case_literal(cx: Ctx, cls: str, replay: dict, mk, model_cmd, meaning, wellfo
             cx.violate(cls + "/value",
                        f"{cls}: emitted line {line!r} decodes to {got!r}, the literal means {want!r}",
                        dict(replay, line=line, decoded=str(got), meaning=str(want)), key=key_bad)
+        if not oracle_failed and cx.assembled_budget > 0:
+            # the same literal through createConstantBlocks (assembleConstants=True): pushint/pushbytes and block entry
+            cx.assembled_budget -= 1
+            for form, ln in cx.real.assembled(mk):
+                cx.stats["assembled:" + form] = cx.stats.get("assembled:" + form, 0) + 1
+                d2 = cx.parseline(ln, sels) if form != "error" else ("error", ln)
+                if d2[0] == "error" or d2[1] != meaning:
+                    oracle_failed = True
+                    want = meaning.hex() if isinstance(meaning, bytes) else meaning
+                    got = d2[1].hex() if isinstance(d2[1], bytes) else d2[1]
+                    cx.violate(cls + "/assembled", f"{cls}: with assembleConstants=True ({form}) the literal is loaded by {ln!r}, which decodes to "
+                               f"{got!r}; the literal means {want!r}", dict(replay, line=ln, form=form, decoded=str(got), meaning=str(want)))
+                    break
     else:
         if wellformed:
             oracle_failed = True
@@ -575,6 +619,9 @@ def run_addr(cx: Ctx, tier: str):
         case_literal(cx, "addr/type", {"kind": "addr-type", "arg": repr(bad)}, lambda bad=bad: pt.Addr(bad), None, None, False)
 
 
+METHOD_REFUSED = '"\\\n\r'  # the characters MethodSignature refuses (methodsig.py)
+
+
 def selector(text: str) -> bytes:
     from algosdk import encoding
     return encoding.checksum(text.encode("utf-8"))[:4]
@@ -585,18 +632,31 @@ def run_method(cx: Ctx, tier: str):
     pt = cx.real.pt
     r = rng("c13-method")
     N = 6000 if tier == "thorough" else 300
-    cands = [('a"b()void', False), ("a\\x41()void", False), ("add(uint64,uint64)uint64", True)]
+    # the first four are the inputs of the retired finding `methodsig-unescaped` (repaired by commit 3567bd6 of
+    # pyteal/ast/methodsig.py; Lean: methodsig_quote_regression, methodsig_backslash_regression, methodsig_linebreak_regression)
+    cands = [('a"b()void', False), ("a\\x41()void", False), ("a()void\nint 0", False), ("a\rb()void", False),
+             ("add(uint64,uint64)uint64", True)]
     cands += [gen_method(r) for _ in range(N)]
+    # every single character of a sample of code points inside an otherwise plain signature
+    probe = list(range(0, 0x80)) + [0x85, 0xA0, 0xE9, 0x2028, 0x2029, 0x2603, 0x1F600]
+    cands += [("a" + chr(cp) + "b()void", False) for cp in probe]
     for sig, plain in cands:
         sel = selector(sig)
         if plain:
             assert abi.Method.from_signature(sig).get_selector() == sel
+        # MethodSignature emits its text verbatim between double quotes, so it must refuse (TealInputError) exactly the
+        # texts containing a double quote, a backslash, a line feed or a carriage return (theorem methodsig_rejects);
+        # accepting one of them is a violation (`accepted-malformed`).  Every other non-empty text must be accepted and
+        # its line must decode to the selector of that very text (theorem methodsig_correct).
+        refused = any(c in sig for c in METHOD_REFUSED)
+        if refused:
+            case_literal(cx, "method/odd-text/refused", {"kind": "method", "text": sig},
+                         lambda sig=sig: pt.MethodSignature(sig), "c13-method " + th(sig), None, False)
+            continue
         # the driver is told the selector of the text the user wrote - and of nothing else
         case_literal(cx, "method" + ("" if plain else "/odd-text"), {"kind": "method", "text": sig},
                      lambda sig=sig: pt.MethodSignature(sig), "c13-method " + th(sig), sel, True,
-                     sels=[(sig.encode("utf-8"), sel)],
-                     # the known finding covers exactly: the text contains a character that needed escaping
-                     key_bad="methodsig-unescaped" if any(c in sig for c in '"\\\n') else None)
+                     sels=[(sig.encode("utf-8"), sel)])
     case_literal(cx, "method-bad", {"kind": "method", "text": ""}, lambda: pt.MethodSignature(""), "c13-method -", None, False)
     for bad in [b"a()void", 3, None]:
         case_literal(cx, "method/type", {"kind": "method-type", "arg": repr(bad)},
@@ -643,6 +703,7 @@ def run(tier: str) -> int:
                 "decoding; malformed => TealInputError; compiled text has exactly the expected 5 lines",
         "samples": cx.samples[:30],
         "distribution": dict(sorted(cx.dist.items())),
+        "assembled_forms_decoded": dict(sorted(cx.stats.items())),
         "driver_queries": cx.drv.n,
         "correspondence_mismatches": len(cx.mismatch),
     })
